@@ -23,62 +23,62 @@ variable {K : Type} [Field K]
     quaternions and satisfies `H Hᵀ = |q|⁴ I`, `det H = |q|⁶` identically. -/
 def quatH (q : Vec 4 K) : Mat 3 K :=
   let w := q 0; let x := q 1; let y := q 2; let z := q 3
-  mat3 (vec3 (w * w + x * x - y * y - z * z) (2 * (x * y - z * w)) (2 * (x * z + y * w)))
-       (vec3 (2 * (x * y + z * w)) (w * w - x * x + y * y - z * z) (2 * (y * z - x * w)))
-       (vec3 (2 * (x * z - y * w)) (2 * (y * z + x * w)) (w * w - x * x - y * y + z * z))
+  affMat3 (affVec3 (w * w + x * x - y * y - z * z) (2 * (x * y - z * w)) (2 * (x * z + y * w)))
+       (affVec3 (2 * (x * y + z * w)) (w * w - x * x + y * y - z * z) (2 * (y * z - x * w)))
+       (affVec3 (2 * (x * z - y * w)) (2 * (y * z + x * w)) (w * w - x * x - y * y + z * z))
 
-def qnorm2 (q : Vec 4 K) : K := q 0 * q 0 + q 1 * q 1 + q 2 * q 2 + q 3 * q 3
+def quatNorm2 (q : Vec 4 K) : K := q 0 * q 0 + q 1 * q 1 + q 2 * q 2 + q 3 * q 3
 
-theorem quatN_eq_quatH (q : Vec 4 K) (h : qnorm2 q = 1) : quaternionToRotationMatrixN q = quatH q := by
-  unfold qnorm2 at h
+theorem quatN_eq_quatH (q : Vec 4 K) (h : quatNorm2 q = 1) : quaternionToRotationMatrixN q = quatH q := by
+  unfold quatNorm2 at h
   funext i j
   fin_cases i <;> fin_cases j <;>
-    simp [quaternionToRotationMatrixN, quatH, mat3, vec3] <;>
+    simp [quaternionToRotationMatrixN, quatH, affMat3, affVec3] <;>
     first | ring1 | linear_combination h | linear_combination -h
 
-theorem quatH_orth (q : Vec 4 K) : (quatH q).mul (quatH q).transpose = fun i j => qnorm2 q * qnorm2 q * (Mat.one : Mat 3 K) i j := by
+theorem quatH_orth (q : Vec 4 K) : (quatH q).mul (quatH q).transpose = fun i j => quatNorm2 q * quatNorm2 q * (Mat.one : Mat 3 K) i j := by
   funext i j
   fin_cases i <;> fin_cases j <;>
-    simp [quatH, mul3_apply, Mat.transpose, Mat.one, qnorm2, mat3, vec3] <;> ring
+    simp [quatH, affineMul3_apply, Mat.transpose, Mat.one, quatNorm2, affMat3, affVec3] <;> ring
 
-theorem quatH_orth' (q : Vec 4 K) : (quatH q).transpose.mul (quatH q) = fun i j => qnorm2 q * qnorm2 q * (Mat.one : Mat 3 K) i j := by
+theorem quatH_orth' (q : Vec 4 K) : (quatH q).transpose.mul (quatH q) = fun i j => quatNorm2 q * quatNorm2 q * (Mat.one : Mat 3 K) i j := by
   funext i j
   fin_cases i <;> fin_cases j <;>
-    simp [quatH, mul3_apply, Mat.transpose, Mat.one, qnorm2, mat3, vec3] <;> ring
+    simp [quatH, affineMul3_apply, Mat.transpose, Mat.one, quatNorm2, affMat3, affVec3] <;> ring
 
-theorem quatH_det (q : Vec 4 K) : det3 (quatH q) = qnorm2 q * qnorm2 q * qnorm2 q := by
-  simp [det3, quatH, qnorm2, mat3, vec3]; ring
+theorem quatH_det (q : Vec 4 K) : affineDet3 (quatH q) = quatNorm2 q * quatNorm2 q * quatNorm2 q := by
+  simp [affineDet3, quatH, quatNorm2, affMat3, affVec3]; ring
 
 /-- unit quaternion ↦ proper rotation. -/
-theorem quatN_orth (q : Vec 4 K) (h : qnorm2 q = 1) :
+theorem quatN_orth (q : Vec 4 K) (h : quatNorm2 q = 1) :
     (quaternionToRotationMatrixN q).mul (quaternionToRotationMatrixN q).transpose = Mat.one := by
   rw [quatN_eq_quatH q h, quatH_orth, h]; funext i j; ring
 
-theorem quatN_orth' (q : Vec 4 K) (h : qnorm2 q = 1) :
+theorem quatN_orth' (q : Vec 4 K) (h : quatNorm2 q = 1) :
     (quaternionToRotationMatrixN q).transpose.mul (quaternionToRotationMatrixN q) = Mat.one := by
   rw [quatN_eq_quatH q h, quatH_orth', h]; funext i j; ring
 
-theorem quatN_det (q : Vec 4 K) (h : qnorm2 q = 1) : det3 (quaternionToRotationMatrixN q) = 1 := by
+theorem quatN_det (q : Vec 4 K) (h : quatNorm2 q = 1) : affineDet3 (quaternionToRotationMatrixN q) = 1 := by
   rw [quatN_eq_quatH q h, quatH_det, h]; ring
 
 /-- `q` and `-q` give the same rotation. -/
 theorem quatN_neg (q : Vec 4 K) : quaternionToRotationMatrixN (fun i => - q i) = quaternionToRotationMatrixN q := by
   funext i j
-  fin_cases i <;> fin_cases j <;> simp [quaternionToRotationMatrixN, mat3, vec3] <;> ring
+  fin_cases i <;> fin_cases j <;> simp [quaternionToRotationMatrixN, affMat3, affVec3] <;> ring
 
 end poly
 
 section ordered
 variable {K : Type} [Field K] [LinearOrder K] [IsStrictOrderedRing K]
 
-theorem clampMin_of_le {x lo : K} (h : lo ≤ x) : clampMin x lo = x := by
-  unfold clampMin; rw [if_neg (not_lt.mpr h)]
+theorem korniaClampMin_of_le {x lo : K} (h : lo ≤ x) : korniaClampMin x lo = x := by
+  unfold korniaClampMin; rw [if_neg (not_lt.mpr h)]
 
 /-- normalising with the true norm `n` (not smaller than `eps`) gives a unit quaternion. -/
-theorem normalize_unit (q : Vec 4 K) (n eps : K) (hn : n * n = qnorm2 q) (hpos : 0 < n) (heps : eps ≤ n) :
-    qnorm2 (normalizeQuaternion q n eps) = 1 := by
+theorem quatNormalize_unit (q : Vec 4 K) (n eps : K) (hn : n * n = quatNorm2 q) (hpos : 0 < n) (heps : eps ≤ n) :
+    quatNorm2 (normalizeQuaternion q n eps) = 1 := by
   have hne : n ≠ 0 := ne_of_gt hpos
-  simp only [qnorm2, normalizeQuaternion, clampMin_of_le heps] at hn ⊢
+  simp only [quatNorm2, normalizeQuaternion, korniaClampMin_of_le heps] at hn ⊢
   field_simp
   linear_combination -hn
 
@@ -86,7 +86,7 @@ theorem normalize_unit (q : Vec 4 K) (n eps : K) (hn : n * n = qnorm2 q) (hpos :
 theorem quatN_sign (q : Vec 4 K) (σ : K) (hσ : σ * σ = 1) :
     quaternionToRotationMatrixN (fun i => σ * q i) = quaternionToRotationMatrixN q := by
   funext i j
-  fin_cases i <;> fin_cases j <;> simp [quaternionToRotationMatrixN, mat3, vec3] <;>
+  fin_cases i <;> fin_cases j <;> simp [quaternionToRotationMatrixN, affMat3, affVec3] <;>
     first
     | ring1
     | linear_combination (2 * q 2 * q 2 + 2 * q 3 * q 3) * hσ
@@ -106,7 +106,7 @@ theorem quatN_sign (q : Vec 4 K) (σ : K) (hσ : σ * σ = 1) :
     `r0 = √(trace + 1)`, the quaternion computed from the matrix of a unit quaternion maps back to
     the same matrix. -/
 theorem rotationMatrixToQuaternion_roundtrip_trace (q : Vec 4 K) (r : Vec 4 K) (tiny : K)
-    (hq : qnorm2 q = 1)
+    (hq : quatNorm2 q = 1)
     (htr : 0 < quaternionToRotationMatrixN q 0 0 + quaternionToRotationMatrixN q 1 1 + quaternionToRotationMatrixN q 2 2)
     (hr : r 0 * r 0 = quaternionToRotationMatrixN q 0 0 + quaternionToRotationMatrixN q 1 1 + quaternionToRotationMatrixN q 2 2 + 1)
     (hr0 : 0 < r 0) (htiny : tiny ≤ r 0 * 2) :
@@ -114,15 +114,15 @@ theorem rotationMatrixToQuaternion_roundtrip_trace (q : Vec 4 K) (r : Vec 4 K) (
       = quaternionToRotationMatrixN q := by
   have hne : r 0 ≠ 0 := ne_of_gt hr0
   have h4 : r 0 * r 0 = 4 * (q 0 * q 0) := by
-    rw [hr]; unfold qnorm2 at hq
-    simp [quaternionToRotationMatrixN, mat3, vec3]; linear_combination (-4 : K) * hq
+    rw [hr]; unfold quatNorm2 at hq
+    simp [quaternionToRotationMatrixN, affMat3, affVec3]; linear_combination (-4 : K) * hq
   have hres : rotationMatrixToQuaternion (quaternionToRotationMatrixN q) r tiny
       = fun i => (2 * q 0 / r 0) * q i := by
     unfold rotationMatrixToQuaternion
     simp only [Nat.cast_zero, htr, if_true]
     funext i
     fin_cases i <;>
-      simp [vec4, safeZeroDivision, clampMin_of_le htiny, quaternionToRotationMatrixN, mat3, vec3] <;>
+      simp [affVec4, safeZeroDivision, korniaClampMin_of_le htiny, quaternionToRotationMatrixN, affMat3, affVec3] <;>
       field_simp <;> first | ring1 | linear_combination h4 | linear_combination -h4
   rw [hres]
   apply quatN_sign
@@ -152,7 +152,7 @@ theorem angleAxis_routes_agree (a : Vec 3 K) (theta c s sh ch eps2 : K)
   generalize a 1 / theta = u1 at *
   generalize a 2 / theta = u2 at *
   fin_cases i <;> fin_cases j <;>
-    simp [quaternionToRotationMatrixN, vec4, mat3, vec3, e0, e1, e2] <;>
+    simp [quaternionToRotationMatrixN, affVec4, affMat3, affVec3, e0, e1, e2] <;>
     first
     | ring1
     | linear_combination (-2 * sh * sh) * hu - (1 - u0 * u0) * hh
